@@ -444,7 +444,7 @@ def plain_mc(chk, module, name, cfg, workers=4, timeout=2400, env=None):
 def C15(chk):
     q = chk.tier == "quick"
     m = 6 if q else 7
-    cfg = ("SPECIFICATION Spec\nCONSTANTS\n  M = %d\n  NV = 3\nINVARIANT NoSpuriousError\nINVARIANT SetTablesFaithful\n"
+    cfg = ("SPECIFICATION Spec\nCONSTANTS\n  M = %d\n  NV = 3\n  WfOnly = TRUE\nINVARIANT NoSpuriousError\nINVARIANT SetTablesFaithful\n"
            "INVARIANT UnassignedFaithful\nINVARIANT UnassignedExact\nINVARIANT BidiFaithful\nINVARIANT WidthFaithful\nINVARIANT Emit\nCHECK_DEADLOCK FALSE\n" % m)
     mc = plain_mc(chk, "MC_TableGen", "c15-m%d" % m, cfg, workers=6, timeout=3000)
     if mc:
@@ -455,6 +455,24 @@ def C15(chk):
         finally:
             import shutil
             shutil.rmtree(scratch, ignore_errors=True)
+    scratch = os.path.join(CACHE, "pvh-gen-%d" % os.getpid())
+    os.environ["PVH_SCRATCH"] = scratch
+    try:
+        # malformed First/Last structure: rejecting transitions of the folding
+        cfg = ("SPECIFICATION Spec\nCONSTANTS\n  M = %d\n  NV = 2\n  WfOnly = FALSE\nINVARIANT FoldErrorIsJustified\n"
+               "INVARIANT EveryMalformationIsRejected\nINVARIANT EmitErr\nINVARIANT EmitDangling\nCHECK_DEADLOCK FALSE\n" % (5 if q else 6))
+        mc = plain_mc(chk, "MC_TableGen", "c15-malformed", cfg, workers=4)
+        if mc:
+            replay(chk, mc, "MC_TableGen malformed First/Last structure")
+        # property-file generators (Scripts / joining types / property sets): lines in any order
+        cfg = ("SPECIFICATION Spec\nCONSTANTS\n  M = %d\n  MaxLines = %d\nINVARIANT Faithful\nINVARIANT Merged\nINVARIANT Emit\nCHECK_DEADLOCK FALSE\n"
+               % ((5, 3) if q else (6, 4)))
+        mc = plain_mc(chk, "MC_PropFile", "c15-propfile", cfg, workers=4)
+        if mc:
+            replay(chk, mc, "MC_PropFile (UnicodeGen<Script> + UcdTableGen) x 4 bases")
+    finally:
+        import shutil
+        shutil.rmtree(scratch, ignore_errors=True)
     # the pinned data sets through the real generators are covered by L1 (every code point of every generated table)
     apply_l1(chk, ["id", "ff", "vir", "greek", "hebrew", "kana", "ld", "rd", "wm", "osp", "bidi"], nontrivial_key="runs")
     chk.cov["exhaustive"] = True
